@@ -56,7 +56,7 @@ func Harness_C03comment(arg int) {
 	} else {
 		symAssume(!(body[0] == '*' && body[1] == '/'))
 		symAssume(body[0] < 0x80 && body[1] < 0x80) // the grammar must be UTF-8 text
-		symAssume(body[1] != '*') // would pair with the closing "/" and leave a stray "*/"... keep the comment well-formed
+		symAssume(body[1] != '*')                   // would pair with the closing "/" and leave a stray "*/"... keep the comment well-formed
 		ins = append([]byte(" /*"), body...)
 		ins = append(ins, '*', '/')
 	}
@@ -89,7 +89,7 @@ func c03Hex(b byte) (int, bool) {
 }
 
 // refEscape decides whether esc (the bytes after the backslash) is exactly one
-// valid escape for the quoting q ('"', '\'', ']') and returns the bytes it denotes.
+// valid escape for the quoting q ('"', '\”, ']') and returns the bytes it denotes.
 func refEscape(esc []byte, q byte) (bool, []byte) {
 	if len(esc) == 0 {
 		return false, nil
